@@ -7,7 +7,7 @@ from microschc.decompressor import decompress
 from microschc.manager import ContextManager
 from microschc.parser import PacketParser, ParserError
 from microschc.protocol.registry import STACKS, factory
-from microschc.rfc8724 import PacketDescriptor, RuleDescriptor
+from microschc.rfc8724 import DirectionIndicator, PacketDescriptor, RuleDescriptor
 from microschc.rfc8724extras import Context
 from microschc.ruler import Ruler, RuleDescriptorMatchError, RuleIDMatchError
 
@@ -24,11 +24,11 @@ class SCHC:
                 self.context_managers[context.interface_id] = []
             self.context_managers[context.interface_id].append(ContextManager(context=context))
     
-    def compress(self, packet: Buffer, interface_id: str):
+    def compress(self, packet: Buffer, interface_id: str, direction: DirectionIndicator = DirectionIndicator.UP):
         eligible_context_managers: List[ContextManager] = self.context_managers[interface_id]
         for context_manager in eligible_context_managers:
             try:
-                schc_packet: Buffer = context_manager.compress(packet)
+                schc_packet: Buffer = context_manager.compress(packet, direction=direction)
                 return schc_packet
             except ParserError: 
                 pass
@@ -40,11 +40,11 @@ class SCHC:
         return packet
         
 
-    def decompress(self, packet: Buffer, interface_id: str):
+    def decompress(self, packet: Buffer, interface_id: str, direction: DirectionIndicator = DirectionIndicator.UP):
         eligible_context_managers: List[ContextManager] = self.context_managers[interface_id]
         for context_manager in eligible_context_managers:
             try:
-                packet: Buffer = context_manager.decompress(packet)
+                packet: Buffer = context_manager.decompress(packet, direction=direction)
                 return packet
             except RuleIDMatchError:
                 pass
